@@ -49,3 +49,71 @@ Example C10code_ex :
   StructCodec_Read (S (length data)) (gstruct fs 4) data (VStruct [VInt 9; VStr [111]; VSlice [VInt 1]]) 2
   = Ok (VStruct [VInt 9; VStr [120]; VSlice [VInt 1]], 3%Z).
 Proof. vm_compute. reflexivity. Qed.
+
+(** ** slices of scalars are REPLACED, whatever the target's backing array held
+    [PlencGen.GenSlice] (wrapper.go: WTVarIntSliceWrapper.Read,
+    WTFixedSliceWrapper.Read, translated on every run) and
+    [PlencGen.SliceEquiv]: the Read of a packed / fixed-width slice into ANY
+    well-formed slice header - shorter or longer than the data, with stale
+    elements below and beyond the new length, re-used or newly allocated - gives
+    exactly the model's decode, which does not look at the target at all. *)
+From PlencGen Require Import GenSlice SliceEquiv.
+
+Theorem C10code_packed_slice_replaced : forall c data h wt,
+  (Z.of_nat (length data) < 4611686018427387904)%Z ->
+  (forall d w p q, dec c d w p = dec c d w q) -> dsafe (S (length data)) (dec c) -> hdr_ok h ->
+  lift_hval (WTVarIntSliceWrapper_Read (S (length data)) (vw c) data h wt)
+  = lift_dec (dec (CSliceVar c) data (Z.to_N wt) (hval h)).
+Proof. exact gen_VarSlice_Read. Qed.
+Print Assumptions C10code_packed_slice_replaced.
+
+Theorem C10code_fixed_slice_replaced : forall c data h wt,
+  (Z.of_nat (length data) < 4611686018427387904)%Z -> size c (VSkip 0) [] = fixed_width c -> fixed_width c <> 0 ->
+  (forall d w p q, dec c d w p = dec c d w q) -> dsafe (S (length data)) (dec c) -> hdr_ok h ->
+  lift_hval (WTFixedSliceWrapper_Read (S (length data)) (fw c) data h wt)
+  = lift_dec (dec (CSliceFix c) data (Z.to_N wt) (hval h)).
+Proof. exact gen_FixSlice_Read. Qed.
+Print Assumptions C10code_fixed_slice_replaced.
+
+(** ... in particular the result does not depend on the target: two targets, one result *)
+Theorem C10code_packed_slice_target_irrelevant : forall c data h1 h2 wt,
+  (Z.of_nat (length data) < 4611686018427387904)%Z ->
+  (forall d w p q, dec c d w p = dec c d w q) -> dsafe (S (length data)) (dec c) -> hdr_ok h1 -> hdr_ok h2 ->
+  lift_hval (WTVarIntSliceWrapper_Read (S (length data)) (vw c) data h1 wt)
+  = lift_hval (WTVarIntSliceWrapper_Read (S (length data)) (vw c) data h2 wt).
+Proof.
+  intros c data h1 h2 wt Hlen Hins Hsafe H1 H2.
+  rewrite !gen_VarSlice_Read by assumption. cbn [dec]. reflexivity.
+Qed.
+Print Assumptions C10code_packed_slice_target_irrelevant.
+
+(** the scalar element codecs satisfy the hypothesis *)
+Theorem C10code_scalars_overwrite : forall c, match c with CBool | CInt _ | CUint _ | CFlat _ | CF32 | CF64 | CBQ => True | _ => False end ->
+  forall d w p q, dec c d w p = dec c d w q.
+Proof. exact scalar_overwrites. Qed.
+Print Assumptions C10code_scalars_overwrite.
+
+Example C10code_slice_ex :
+  lift_hval (WTVarIntSliceWrapper_Read 4 (vw (CInt 64)) [2; 1; 3] (mksliceHeader (VSlice [VInt 9; VInt 9; VInt 9; VInt 9]) 4 4) 2)
+  = Ok (VSlice [VInt 1; VInt (-1); VInt (-2)], 3%Z).
+Proof. vm_compute. reflexivity. Qed.
+
+(** counted slices of length-delimited elements (structs, strings, pointers, ...): every element is
+    decoded into a ZERO element - a new array, or the old one cleared first - whatever the target held *)
+Theorem C10code_counted_slice_replaced : forall c data h wt,
+  (Z.of_nat (length data) < 4611686018427387904)%Z -> dsafe (S (length data)) (dec c) -> hdr_wf h ->
+  lift_hval (WTLengthSliceWrapper_Read (S (length data)) (lw c) data h wt)
+  = lift_dec (dec (CSliceLen c) data (Z.to_N wt) (hval h)).
+Proof. exact gen_LenSlice_Read. Qed.
+Print Assumptions C10code_counted_slice_replaced.
+
+(** the repeated (protobuf) form APPENDS one element, decoded into a zero element, growing the array when it is full *)
+Theorem C10code_repeated_form_appends : forall c data h wt fuel, hdr_wf h ->
+  lift_hval (ProtoSliceWrapper_Read fuel (prw c) data h wt) = lift_dec (dec (CSliceProto c) data (Z.to_N wt) (hval h)).
+Proof. exact gen_ProtoSlice_Read. Qed.
+Print Assumptions C10code_repeated_form_appends.
+
+Theorem C10code_default_reads_repeated_form : forall c data h fuel, hdr_wf h ->
+  lift_hval (WTLengthSliceWrapper_readAsWTLength fuel (lw c) data h) = lift_dec (dec (CSliceProto c) data Wire.WTLength (hval h)).
+Proof. exact gen_LenSlice_readAsWTLength. Qed.
+Print Assumptions C10code_default_reads_repeated_form.
